@@ -43,9 +43,7 @@ def construct(ann, val, use_default, generic=False):
             cls = make_class(ann)
             inst = cls(x=pyval)
     except Exception as e:  # noqa: BLE001  - construction refused (or the annotation itself is unsupported)
-        if isinstance(e, (TypeError, ValueError, ExceptionGroup)):
-            return dict(acc="no", stored=NOVAL)
-        return dict(acc="crash:" + type(e).__name__ + ":" + str(e)[:80], stored=NOVAL)
+        return dict(acc="no", stored=NOVAL)  # refused - the property does not say with which exception type
     stored = inst.x
     term = py_to_val(stored)
     if val["xs"] and not is_frozen(stored) and ann["k"] != "any":
